@@ -20,6 +20,9 @@ UNIT = Unit(
            attrs="#[verifier::exec_allows_no_decreases_clause]\n#[verifier::loop_isolation(false)]",
            obligation="after a successful visit the package and everything it (transitively) imports are in `order`, imports first; a missing import is an Err",
            rules=["attrs", "fmtmsg", "msg_to_string", ("consume_into", ["deps"])],
+           # a walk over the import SET itself (`for dep in package.imports.iter()`): the same loop over the sequence that comes out of the hash set, unsorted
+           pre_rewrites=[(re.compile(r"for (\w+) in ((?:\w+\.)*imports)\.iter\(\) \{"), r"let mut deps = OVec::from_set(&\2); for \1__o in deps { let \1 = &\1__o;", "*"),
+                         (re.compile(r"for (\w+) in &((?:\w+\.)*imports) \{"), r"let mut deps = OVec::from_set(&\2); for \1__o in deps { let \1 = &\1__o;", "*")],
            rewrites=[(CYCLE_BLOCK, "", 1),
                      (re.compile(r"\bname\.to_string\(\)"), "str_to_string(name)", "*"),
                      (re.compile(r"let mut (\w+): Vec<String> = ([\w\.]+)\.iter\(\)\.cloned\(\)\.collect\(\);"), r"let mut \1 = OVec::from_set(&\2);", "*")],
